@@ -688,6 +688,9 @@ pub fn ot_case(seed: u64, k: usize) -> OtSession {
     let (a0, n0) = input_scalar(k + 2, &mut r);
     let (a1, n1) = input_scalar(k / 5 + 2 * k, &mut r);
     let (sid, sn) = session_id(k + 1, &mut r);
+    // mixed zero / non-zero input vectors: a position-dependent treatment of a zero input (skipping it, filtering it out of a
+    // zip) shifts the remaining inputs against theta.  Cases 0 and 3 are (q-1, 0) and (0, 1), 8 is (0, q-1), 14 is (1, 0):
+    // the quick tier runs cases 0..5 for that reason.
     if k % 6 == 4 {
         // input (0, 0) and an all-zero eta draw (the sender's stream: 2 x 512 base-OT scalars, then eta)
         return ot_session(seed, &format!("{k}:a=(0,0):sid={sn}#zero64@32768"), sid, [Scalar::ZERO, Scalar::ZERO]);
@@ -753,7 +756,7 @@ pub fn run(kv: &Args) -> i32 {
     let seed = kv.u64("seed", 1);
     let out = kv.str("out", "/verif/build/run/C01");
     std::fs::create_dir_all(&out).unwrap();
-    let (n_ext, n_ot) = if kv.thorough() { (150, 60) } else { (kv.u64("n_ext", 6) as usize, kv.u64("n_ot", 3) as usize) };
+    let (n_ext, n_ot) = if kv.thorough() { (150, 60) } else { (kv.u64("n_ext", 9) as usize, kv.u64("n_ot", 5) as usize) };
     // `only=ext<k>` / `only=ot<k>` re-runs one case; `replay=<file>` does the same for the case named in the
     // text of an ORACLE / DISAGREE line ("variant=ext case=<k>:...").
     let mut only = kv.get("only").map(|s| s.to_string());
